@@ -73,7 +73,7 @@ def run(run, tier):
         if not same:
             run.internal_errors.append(f"instrumented run of {name} differs from the real code: {recs[name]['result']!r} vs {solo[name]!r}")
     # (2) conflict analysis
-    writers = {n: sorted({(e.label, e.key) for e in r["events"] if e.kind == "W"}) for n, r in recs.items()}
+    writers = {n: sorted({(e.label, e.key) for e in r["events"] if e.kind == "W"}, key=repr) for n, r in recs.items()}
     run.sample(dict(kind="shared cells written per operation", cells={n: [f"{l}[{k}]" for l, k in w][:6] for n, w in writers.items() if w}))
     names = sorted(recs)
     pairs = [(a, b) for i, a in enumerate(names) for b in names[i:]]
